@@ -632,32 +632,43 @@ ALPHA_XQ = '1-#(): ^_*'        # quick tier: without the passive '2' and '.'
 ALPHA_P = '12-+.():*^_'        # what normalize() hands to the PEG
 
 
+REGEX_HELPERS = [      # (index in Exec.regex_step, module-level name, replacement)
+    (1, 're_compl_cell', r' ^(\1)'), (2, 're_compl_surf', r' _('),
+    (3, 're_union', ':'), (4, 're_pareno', '('), (5, 're_parenc', ')'),
+    (6, 're_pareno_before', r'\1 ('), (7, 're_parenc_after', r') \1'),
+    (8, 're_spaces', '*'),
+]
+
+
 def regex_steps():
+    '''[(index in Exec.regex_step, name, function)] — the module-level regex
+    objects of parsegeom.py are helpers, not anchored functions: one that a
+    rewrite has renamed or removed is skipped (the public normalize() and the
+    whole get_ast are tied anyway); missing names are returned too'''
     import MIP.geom.parsegeom as pg
-    return [
-        ('strip', lambda t: t.strip()),
-        ('re_compl_cell', lambda t: pg.re_compl_cell.sub(r' ^(\1)', t)),
-        ('re_compl_surf', lambda t: pg.re_compl_surf.sub(r' _(', t)),
-        ('re_union', lambda t: pg.re_union.sub(':', t)),
-        ('re_pareno', lambda t: pg.re_pareno.sub('(', t)),
-        ('re_parenc', lambda t: pg.re_parenc.sub(')', t)),
-        ('re_pareno_before', lambda t: pg.re_pareno_before.sub(r'\1 (', t)),
-        ('re_parenc_after', lambda t: pg.re_parenc_after.sub(r') \1', t)),
-        ('re_spaces', lambda t: pg.re_spaces.sub('*', t)),
-        ('normalize', pg.normalize),
-    ]
+    steps = [(0, 'strip', lambda t: t.strip())]
+    missing = []
+    for idx, name, repl in REGEX_HELPERS:
+        rex = getattr(pg, name, None)
+        if rex is None or not hasattr(rex, 'sub'):
+            missing.append(name)
+            continue
+        steps.append((idx, name, (lambda t, rex=rex, repl=repl:
+                                  rex.sub(repl, t))))
+    steps.append((9, 'normalize', pg.normalize))
+    return steps, missing
 
 
 def step_job(job):
     '''fingerprints of the ten string functions on prefix + s, |s| <= n'''
     prefix, n, alphabet = job
-    steps = regex_steps()
+    steps, _missing = regex_steps()
     sums = [0] * len(steps)
     for k in range(n + 1):
         for tup in itertools.product(alphabet, repeat=k):
             text = prefix + ''.join(tup)
             hin = h_str(text)
-            for i, (_name, fun) in enumerate(steps):
+            for i, (_idx, _name, fun) in enumerate(steps):
                 sums[i] = (sums[i] + hin * h_str(fun(text), 11)) % FP_P
     return sums
 
@@ -698,8 +709,13 @@ def run_regex_tie(res, quick, pool):
     alpha = ALPHA_XQ if quick else ALPHA_X
     jobs = [(a, n, alpha) for a in alpha]
     sums = pool.map(step_job, jobs)
-    names = [name for name, _ in regex_steps()]
-    cases = [cpair(common.cnat(k), cstr(pre), cn(sums[j][k]))
+    steps, missing = regex_steps()
+    names = [name for _, name, _ in steps]
+    if missing:
+        res.extra['skipped'] = [f'helper parsegeom.{m} not present (its step '
+                                'tie is skipped; normalize() and get_ast are '
+                                'tied)' for m in missing]
+    cases = [cpair(common.cnat(steps[k][0]), cstr(pre), cn(sums[j][k]))
              for j, (pre, _, _) in enumerate(jobs) for k in range(len(names))]
     check = (f'(fun c : nat * string * N => let \'(k, p, h) := c in '
              f'N.eqb (step_fp_on {"alphaXq" if quick else "alphaX"} k p {n}) h)')
@@ -794,8 +810,18 @@ def coverage_phase(res):
     tables incl. lattice cells, cell cards) under a line tracer restricted to
     the anchored functions: every line inside the property's input language
     must be executed'''
+    try:
+        _coverage_phase(res)
+    except Exception as exc:            # information only: never fails a check
+        res.extra['line_coverage_error'] = f'{type(exc).__name__}: {exc}'[:300]
+
+
+def _coverage_phase(res):
     import c11_cov
-    cov = c11_cov.LineCov(c11_cov.anchored_functions())
+    funcs, missing = c11_cov.anchored_functions()
+    if missing:
+        res.extra['line_coverage_missing_names'] = missing
+    cov = c11_cov.LineCov(funcs)
     with cov:
         for text, _ in CORPUS + CORPUS_KNOWN:
             impl_get_ast(text)
@@ -1533,7 +1559,57 @@ DECK_CORPUS = [
     '#(#(1 -1 : -2)) -10', '-10 #(3 : -3 : #(4))', '(-20 : 20.2 -20) -3',
     '1 -1 : -10', '(-1 : 1 -1 2) : 3 -3', '-10 (1 : (2 -2 : 3 -3))',
 ]
+# a second corpus deck: the SAME set of signed surfaces once under an
+# intersection and once under a union within one conversion run (any per-run
+# cache of converted nodes must tell them apart), directly, nested, through a
+# complement, and inside one expression
+DECK_CORPUS_TWINS = [
+    '1 -2 -4', '(1 : -2) -3', '(3 -4 : 2) (3 : -4)', '-1 2', '#4 -4',
+    '1 -2 : 4 3', '-10 3 : -10 -3', '(-10 : 3) (-10 : -3)', '10 : -20.1',
+    '10 -20.1 4',
+]
 DECK_LITS = [1, 2, 3, 4, 10, 20]
+
+
+def plant_twins(rng, exprs):
+    '''operator twins: one random set of 2-3 signed surfaces is planted as a
+    pure intersection node in one cell and as a pure union node in another
+    (or the same) cell, each below the opposite operator so that it stays a
+    node of its own after flattening, in random order'''
+    ids = list(exprs)
+    k = rng.choice((2, 2, 3))
+    lits = [('s', sid * rng.choice([1, -1]),
+             rng.randint(1, 6) if sid == 20 and rng.random() < 0.5 else None)
+            for sid in rng.sample(DECK_LITS, k)]
+
+    def fold(op, items):
+        node = items[0]
+        for item in items[1:]:
+            node = (op, node, item)
+        return node
+    both = [('*', ':'), (':', '*')]
+    rng.shuffle(both)
+    cells = [rng.choice(ids), rng.choice(ids)]
+    for (op, outer), cid in zip(both, cells):
+        items = lits[:]
+        rng.shuffle(items)
+        twin = fold(op, items)
+        style = rng.random()
+        if style < 0.25:
+            exprs[cid] = twin                      # the whole cell
+        elif style < 0.45 and not has_cell_under_not_any(exprs[cid]):
+            # through De Morgan: #( dual of the twin over opposite senses )
+            dual = fold(':' if op == '*' else '*',
+                        [('s', -z, sub) for _, z, sub in items])
+            exprs[cid] = (outer, ('#', dual), exprs[cid])
+        else:
+            exprs[cid] = (outer, twin, exprs[cid]) if rng.random() < 0.5 \
+                else (outer, exprs[cid], twin)
+    return exprs
+
+
+def has_cell_under_not_any(e):
+    return has_cell_under_not(e)
 
 
 def gen_deck_expr(rng, depth, cells):
@@ -1651,8 +1727,13 @@ def run_decks(res, rng, n_decks):
     corpus = {i + 1: text for i, text in enumerate(DECK_CORPUS)}
     n_fail += check_deck(res, corpus, points, 'deck-corpus')
     n_cells = len(corpus)
-    for _ in range(n_decks):
-        texts = {}
+    for order in (1, -1):                # the later of two twins is the one at risk
+        twins = {i + 1: text for i, text in
+                 enumerate(DECK_CORPUS_TWINS[::order])}
+        n_fail += check_deck(res, twins, points, 'deck-corpus-twins')
+        n_cells += len(twins)
+    for d in range(n_decks):
+        exprs = {}
         ids = []
         for k in range(rng.randint(3, 7)):
             cid = k + 1
@@ -1662,20 +1743,26 @@ def run_decks(res, rng, n_decks):
                     break
             else:
                 e = ('s', 1, None)
+            exprs[cid] = e
+            ids.append(cid)
+        if d % 2 == 0:
+            exprs = plant_twins(rng, exprs)
+            res.count('deck:with-operator-twins')
+        texts = {}
+        for cid, e in exprs.items():
             text = render(e, random_layout(rng))
             if c11_refparse.parse(text) is None:
                 # "#n+m" / "#n-m": accepted by the converter, not a spelling
                 # the independent reader knows; write it canonically
                 text = render(e, CANON)
             texts[cid] = text
-            ids.append(cid)
         # one cell that is certainly not empty: a deck all of whose cells are
         # patently empty has nothing to write (the converter then stops with
         # "max() iterable argument is empty"; not a geometry, outside C11)
         texts[len(texts) + 1] = '10'
         n_cells += len(texts)
         n_fail += check_deck(res, texts, points, 'deck')
-    res.obligation(f'sweep:decks ({n_decks + 1} whole decks, {n_cells} cells '
+    res.obligation(f'sweep:decks ({n_decks + 3} whole decks, {n_cells} cells '
                    'converted with impl.convert; membership of 60 points in '
                    'every written volume = the independent reading of the '
                    'card; every cell owning a point is written)',
